@@ -2915,7 +2915,7 @@ pub fn run(report: &mut Report, replay: Option<&str>) {
 
     // (ii) random structured programs
     let mut rng = Rng::new(report.seed);
-    let n_random = if thorough { 400_000 } else { 40_000 };
+    let n_random = if thorough { 250_000 } else { 40_000 };
     let mut random_items: Vec<Item> = Vec::with_capacity(n_random);
     for i in 0..n_random {
         let mut r = rng.fork();
